@@ -94,6 +94,28 @@ def multipitch(ref_time, ref_freqs, est_time, est_freqs):
     return out
 
 
+def multipitch_metrics(ref_time, ref_freqs, est_time, est_freqs):
+    """multipitch.metrics as the documented composition of its public helpers: the estimate is resampled when the time bases differ, raw and
+    chroma counts both use the caller's `window` (chroma=True forced for the second), the seven scores come from the same counts"""
+    multipitch.validate(ref_time, ref_freqs, est_time, est_freqs)
+    if est_time.size != ref_time.size or not numpy.allclose(est_time, ref_time):
+        warnings.warn("Estimate times not equal to reference times. Resampling to common time base.")
+        est_freqs = multipitch.resample_multipitch(est_time, est_freqs, ref_time)
+    ref_midi = multipitch.frequencies_to_midi(ref_freqs)
+    est_midi = multipitch.frequencies_to_midi(est_freqs)
+    ref_chroma = multipitch.midi_to_chroma(ref_midi)
+    est_chroma = multipitch.midi_to_chroma(est_midi)
+    n_ref = multipitch.compute_num_freqs(ref_midi)
+    n_est = multipitch.compute_num_freqs(est_midi)
+    tp = direct(multipitch.compute_num_true_positives, ref_midi, est_midi)
+    tpc = direct(multipitch.compute_num_true_positives, ref_chroma, est_chroma, chroma=True)
+    p, r, a = multipitch.compute_accuracy(tp, n_ref, n_est)
+    es, em, ef, et = multipitch.compute_err_score(tp, n_ref, n_est)
+    pc, rc, ac = multipitch.compute_accuracy(tpc, n_ref, n_est)
+    esc, emc, efc, etc = multipitch.compute_err_score(tpc, n_ref, n_est)
+    return (p, r, a, es, em, ef, et, pc, rc, ac, esc, emc, efc, etc)
+
+
 def transcription(ref_intervals, ref_pitches, est_intervals, est_pitches):
     out = {}
     ratio = user("offset_ratio", 0.2)
